@@ -62,10 +62,31 @@ type muState struct {
 type pendingOp struct {
 	mu *Value
 	op string
+	wg *wgState
+	ch *ChanV
+}
+
+// ChanV is a Go channel of the program under test (thread mode and sequential code).
+type ChanV struct {
+	cap    int
+	buf    []chanItem
+	closed bool
+	crel   vclock // released by close
+}
+
+type chanItem struct {
+	v   Value
+	clk vclock
+}
+
+type wgState struct {
+	n   int
+	rel vclock
 }
 
 type gthread struct {
 	id      int
+	args    []Value
 	fn      Value
 	clock   vclock
 	wake    chan struct{}
@@ -92,6 +113,9 @@ type threadState struct {
 	races     map[string]bool
 	Switches  int
 	tryResult bool
+	boundSet  bool
+	wgs       map[*Value]*wgState
+	fr0       *frame
 	atomRel   map[*Value]vclock // release clocks of cells accessed with sync/atomic
 	last      int               // goroutine that ran last (for the preemption bound)
 	preempts  int               // preemptive switches so far
@@ -202,6 +226,33 @@ func (t *threadState) enabled(g *gthread) bool {
 	if g.pending == nil {
 		return true
 	}
+	switch g.pending.op {
+	case "join":
+		for _, o := range t.threads[1:] {
+			if !o.done {
+				return false
+			}
+		}
+		return true
+	case "wgwait":
+		return g.pending.wg.n == 0
+	case "send":
+		ch := g.pending.ch
+		if ch.closed || len(ch.buf) < ch.cap {
+			return true
+		}
+		if ch.cap == 0 && len(ch.buf) == 0 { // rendezvous: a receiver must be waiting
+			for _, o := range t.threads {
+				if o != g && !o.done && o.pending != nil && o.pending.op == "recv" && o.pending.ch == ch {
+					return true
+				}
+			}
+		}
+		return false
+	case "recv":
+		ch := g.pending.ch
+		return len(ch.buf) > 0 || ch.closed
+	}
 	if g.pending.mu == nil {
 		return true
 	}
@@ -232,11 +283,7 @@ func (t *threadState) muOf(p *Value) *muState {
 
 func (t *threadState) lockOp(in *Interp, mu *Value, op string) {
 	g := t.curThread()
-	if t.running && g.id != 0 {
-		g.pending = &pendingOp{mu: mu, op: op}
-		t.yield(g) // scheduling point before every synchronisation operation
-		g.pending = nil
-	}
+	t.schedPoint(in, &pendingOp{mu: mu, op: op}) // scheduling point before every synchronisation operation
 	m := t.muOf(mu)
 	switch op {
 	case "TryLock":
@@ -256,8 +303,8 @@ func (t *threadState) lockOp(in *Interp, mu *Value, op string) {
 			t.tryResult = false
 		}
 	case "Lock":
-		if m.writer >= 0 || m.pendingW >= 0 || (len(m.readers) > 0 && (!t.running || g.id == 0)) {
-			if !t.running || g.id == 0 {
+		if m.writer >= 0 || m.pendingW >= 0 || (len(m.readers) > 0 && !t.live()) {
+			if !t.live() {
 				in.recordFinding("deadlock", "C10 no deadlock", "Lock on a mutex that is already held, outside any goroutine")
 				panic(pathEnd{"deadlock"})
 			}
@@ -266,16 +313,14 @@ func (t *threadState) lockOp(in *Interp, mu *Value, op string) {
 		if len(m.readers) > 0 {
 			// announced; new readers are held back until this writer has had the lock
 			m.pendingW = g.id
-			g.pending = &pendingOp{mu: mu, op: "LockWait"}
-			t.yield(g)
-			g.pending = nil
+			t.schedPoint(in, &pendingOp{mu: mu, op: "LockWait"})
 			m.pendingW = -1
 		}
 		m.writer = g.id
 		g.clock = g.clock.join(m.lw).join(m.lr)
 	case "RLock":
 		if m.writer >= 0 || m.pendingW >= 0 {
-			if !t.running || g.id == 0 {
+			if !t.live() {
 				in.recordFinding("deadlock", "C10 no deadlock", "RLock on a mutex that is write-locked, outside any goroutine")
 				panic(pathEnd{"deadlock"})
 			}
@@ -307,11 +352,7 @@ func (t *threadState) lockOp(in *Interp, mu *Value, op string) {
 // acquire-release edge through the cell it operates on.
 func (t *threadState) syncPoint(in *Interp, what string, cell *Value) {
 	g := t.curThread()
-	if t.running && g.id != 0 {
-		g.pending = &pendingOp{op: what}
-		t.yield(g)
-		g.pending = nil
-	}
+	t.schedPoint(in, &pendingOp{op: what})
 	if cell != nil && t.running {
 		if c, ok := t.atomRel[cell]; ok {
 			g.clock = g.clock.join(c)
@@ -342,8 +383,225 @@ func (t *threadState) poolGet(x Value) {
 	}
 }
 
+// spawn: a go statement of the program under test. The new goroutine is schedulable from the next
+// scheduling point of any goroutine on; everything the spawner did so far happens before it.
 func (t *threadState) spawn(in *Interp, fr *frame, fn Value, a []Value) {
-	panic(engineErr("go statement: use vGo in harnesses"))
+	cur := t.curThread()
+	g := &gthread{id: len(t.threads), fn: fn, args: a, wake: make(chan struct{})}
+	g.clock = cur.clock.copy()
+	for len(g.clock) <= g.id {
+		g.clock = append(g.clock, 0)
+	}
+	g.clock[g.id] = 1
+	g.started = false
+	g.label = "go"
+	t.threads = append(t.threads, g)
+	t.tick()
+	if t.fr0 == nil {
+		t.fr0 = fr
+	}
+	t.running = true
+	if t.bound < 0 && !t.boundSet {
+		// goroutines started by the program under test itself: schedules with at most two forks
+		// (stated bound; harness goroutines registered with vGo are explored exhaustively)
+		t.bound = 2
+		in.stubsUsed["go statements of the program: schedules with at most 2 scheduling choices"]++
+	}
+	if aliasReadHook == nil {
+		aliasReadHook = func(cells []Value) {
+			for i := range cells {
+				in.onRead(&cells[i])
+			}
+		}
+	}
+}
+
+// live: some goroutine other than the main one has not finished.
+func (t *threadState) live() bool {
+	for _, g := range t.threads[1:] {
+		if !g.done {
+			return true
+		}
+	}
+	return false
+}
+
+// schedPoint: the current goroutine is about to perform op. Other goroutines may run first; the call
+// returns when this goroutine has been chosen and op is enabled. For the main goroutine the scheduler
+// loop runs right here; the others hand control back to it.
+func (t *threadState) schedPoint(in *Interp, op *pendingOp) {
+	g := t.curThread()
+	if g.id != 0 {
+		if !t.running {
+			return
+		}
+		g.pending = op
+		t.yield(g)
+		g.pending = nil
+		return
+	}
+	if !t.running || (!t.live() && op.op != "join") {
+		if !t.enabledOp(g, op) {
+			in.recordFinding("deadlock", "C10 no deadlock", "the only goroutine blocks forever ("+op.op+")")
+			panic(pathEnd{"deadlock"})
+		}
+		return
+	}
+	g.pending = op
+	t.runLoop(in)
+	g.pending = nil
+}
+
+func (t *threadState) enabledOp(g *gthread, op *pendingOp) bool {
+	saved := g.pending
+	g.pending = op
+	ok := t.enabled(g)
+	g.pending = saved
+	return ok
+}
+
+// runLoop schedules goroutines until the main goroutine (whose pending operation is set) is chosen.
+func (t *threadState) runLoop(in *Interp) {
+	main := t.threads[0]
+	for {
+		var en []*gthread
+		if t.enabled(main) {
+			en = append(en, main)
+		}
+		for _, g := range t.threads[1:] {
+			if !g.done && t.enabled(g) {
+				en = append(en, g)
+			}
+		}
+		if len(en) == 0 {
+			in.recordFinding("deadlock", "C10 no deadlock", "all goroutines are blocked")
+			panic(pathEnd{"deadlock"})
+		}
+		pick := 0
+		if len(en) > 1 {
+			lastIdx := -1
+			for i, g := range en {
+				if g.id == t.last {
+					lastIdx = i
+				}
+			}
+			if t.bound >= 0 && t.preempts >= t.bound {
+				// budget used up: no more forks -- the running goroutine keeps running, and when it blocks
+				// or ends the enabled goroutine with the lowest id that is not the main one goes next
+				pick = lastIdx
+				if pick < 0 {
+					pick = 0
+					if en[0] == main && len(en) > 1 {
+						pick = 1
+					}
+				}
+			} else {
+				pick = in.ex.choose("schedule", make([]*Term, len(en)))
+				t.Switches++
+				if lastIdx < 0 || pick != lastIdx {
+					t.preempts++
+				}
+			}
+		}
+		g := en[pick]
+		t.last = g.id
+		if g == main {
+			t.cur = 0
+			return
+		}
+		t.cur = g.id
+		if !g.started {
+			g.started = true
+			go t.runThread(in, t.fr0, g)
+		} else {
+			g.wake <- struct{}{}
+		}
+		<-t.mainCh
+		t.cur = 0
+		if t.abort != nil {
+			a := t.abort
+			t.abort = nil
+			panic(a)
+		}
+	}
+}
+
+// ---- sync.WaitGroup ----
+
+func (t *threadState) wgOf(p *Value) *wgState {
+	if t.wgs == nil {
+		t.wgs = map[*Value]*wgState{}
+	}
+	w := t.wgs[p]
+	if w == nil {
+		w = &wgState{}
+		t.wgs[p] = w
+	}
+	return w
+}
+
+func (t *threadState) wgAdd(in *Interp, p *Value, n int) {
+	w := t.wgOf(p)
+	t.schedPoint(in, &pendingOp{op: "wgadd"})
+	w.n += n
+	if w.n < 0 {
+		in.tpanic("explicit", "sync: negative WaitGroup counter")
+	}
+	if n < 0 { // Done: everything before it happens before the Wait that it releases
+		w.rel = w.rel.join(t.curThread().clock)
+		t.tick()
+	}
+}
+
+func (t *threadState) wgWait(in *Interp, p *Value) {
+	w := t.wgOf(p)
+	t.schedPoint(in, &pendingOp{op: "wgwait", wg: w})
+	g := t.curThread()
+	g.clock = g.clock.join(w.rel)
+}
+
+// ---- channels ----
+
+func (t *threadState) chanSend(in *Interp, ch *ChanV, v Value) {
+	if ch == nil {
+		t.schedPoint(in, &pendingOp{op: "recv", ch: &ChanV{}}) // a nil channel blocks forever
+	}
+	t.schedPoint(in, &pendingOp{op: "send", ch: ch})
+	if ch.closed {
+		in.tpanic("explicit", "send on closed channel")
+	}
+	g := t.curThread()
+	ch.buf = append(ch.buf, chanItem{v: copyVal(v), clk: g.clock.copy()})
+	t.tick()
+}
+
+func (t *threadState) chanRecv(in *Interp, ch *ChanV, zero Value) (Value, bool) {
+	if ch == nil {
+		t.schedPoint(in, &pendingOp{op: "recv", ch: &ChanV{}})
+	}
+	t.schedPoint(in, &pendingOp{op: "recv", ch: ch})
+	g := t.curThread()
+	if len(ch.buf) > 0 {
+		it := ch.buf[0]
+		ch.buf = ch.buf[1:]
+		g.clock = g.clock.join(it.clk)
+		return it.v, true
+	}
+	g.clock = g.clock.join(ch.crel)
+	return zero, false
+}
+
+func (t *threadState) chanClose(in *Interp, ch *ChanV) {
+	if ch == nil {
+		in.tpanic("explicit", "close of nil channel")
+	}
+	t.schedPoint(in, &pendingOp{op: "close"})
+	if ch.closed {
+		in.tpanic("explicit", "close of closed channel")
+	}
+	ch.closed = true
+	ch.crel = t.curThread().clock.copy()
+	t.tick()
 }
 
 // vGo registers a goroutine; it starts running inside vJoin.
@@ -356,7 +614,7 @@ func (t *threadState) register(fn Value) {
 func (t *threadState) join(in *Interp, fr *frame) {
 	main := t.threads[0]
 	for _, g := range t.threads[1:] {
-		if !g.started {
+		if !g.started && g.clock == nil {
 			g.clock = main.clock.copy() // goroutine start: everything main did happens before
 			for len(g.clock) <= g.id {
 				g.clock = append(g.clock, 0)
@@ -366,83 +624,36 @@ func (t *threadState) join(in *Interp, fr *frame) {
 	}
 	t.tick()
 	t.running = true
+	t.fr0 = fr
 	aliasReadHook = func(cells []Value) {
 		for i := range cells {
 			in.onRead(&cells[i])
 		}
 	}
-	defer func() {
-		t.running = false
-		aliasReadHook = nil
-		// make sure no host goroutine stays blocked
-		t.killed = true
-		for _, g := range t.threads[1:] {
-			if g.started && !g.done {
-				g.done = true
-				g.wake <- struct{}{}
-				<-t.mainCh
-			}
-		}
-		t.killed = false
-	}()
-	for {
-		var en []*gthread
-		unfinished := 0
-		for _, g := range t.threads[1:] {
-			if !g.done {
-				unfinished++
-				if t.enabled(g) {
-					en = append(en, g)
-				}
-			}
-		}
-		if unfinished == 0 {
-			break
-		}
-		if len(en) == 0 {
-			in.recordFinding("deadlock", "C10 no deadlock", "all remaining goroutines are blocked")
-			panic(pathEnd{"deadlock"})
-		}
-		pick := 0
-		if len(en) > 1 {
-			lastIdx := -1
-			for i, g := range en {
-				if g.id == t.last {
-					lastIdx = i
-				}
-			}
-			if t.bound >= 0 && t.preempts >= t.bound && lastIdx >= 0 {
-				pick = lastIdx // preemption budget used up: the running goroutine keeps running
-			} else {
-				pick = in.ex.choose("schedule", make([]*Term, len(en)))
-				t.Switches++
-				if lastIdx >= 0 && pick != lastIdx {
-					t.preempts++
-				}
-			}
-		}
-		g := en[pick]
-		t.cur = g.id
-		t.last = g.id
-		if !g.started {
-			g.started = true
-			go t.runThread(in, fr, g)
-		} else {
-			g.wake <- struct{}{}
-		}
-		<-t.mainCh
-		t.cur = 0
-		if t.abort != nil {
-			a := t.abort
-			t.abort = nil
-			panic(a)
-		}
-	}
+	defer t.shutdown()
+	main.pending = &pendingOp{op: "join"}
+	t.runLoop(in)
+	main.pending = nil
 	// join: everything the goroutines did happens before what main does next
 	for _, g := range t.threads[1:] {
 		main.clock = main.clock.join(g.clock)
 	}
 	t.threads = t.threads[:1]
+}
+
+// shutdown releases the host goroutines of goroutines that did not finish (end of a path).
+func (t *threadState) shutdown() {
+	t.running = false
+	aliasReadHook = nil
+	t.killed = true
+	for _, g := range t.threads[1:] {
+		if g.started && !g.done {
+			g.done = true
+			g.wake <- struct{}{}
+			<-t.mainCh
+		}
+	}
+	t.killed = false
 }
 
 func (t *threadState) runThread(in *Interp, fr *frame, g *gthread) {
@@ -456,7 +667,7 @@ func (t *threadState) runThread(in *Interp, fr *frame, g *gthread) {
 		t.mainCh <- struct{}{}
 	}()
 	savedDepth := in.depth
-	in.call(fr, 0, g.fn, nil)
+	in.call(fr, 0, g.fn, g.args)
 	in.depth = savedDepth
 	t.tick()
 }
@@ -530,7 +741,22 @@ func (in *Interp) onPoolGet(x Value) {
 }
 
 func (in *Interp) spawn(fr *frame, fn Value, args []Value) {
-	panic(engineErr("go statement outside a harness: use vGo"))
+	in.threadMode().spawn(in, fr, fn, args)
+}
+
+func (in *Interp) chanSend(ch Value, v Value) {
+	c, _ := ch.(*ChanV)
+	in.threadMode().chanSend(in, c, v)
+}
+
+func (in *Interp) chanRecv(ch Value, zero Value) (Value, bool) {
+	c, _ := ch.(*ChanV)
+	return in.threadMode().chanRecv(in, c, zero)
+}
+
+func (in *Interp) chanClose(ch Value) {
+	c, _ := ch.(*ChanV)
+	in.threadMode().chanClose(in, c)
 }
 
 func init() {
@@ -541,6 +767,7 @@ func init() {
 	harnessAPI["vSchedBound"] = func(in *Interp, fr *frame, a []Value) Value {
 		t := in.threadMode()
 		t.bound = asInt(a[0])
+		t.boundSet = true
 		t.preempts = 0
 		return nil
 	}
